@@ -636,7 +636,8 @@ def expand_ctor_maps(P, D):
             continue
         adt, variant = fn.rsplit('::', 1)
         a = P.adts.get(adt)
-        if a is None or variant not in [v['name'] for v in a['variants']]:
+        std = {'core::option::Option': ['None', 'Some'], 'core::result::Result': ['Ok', 'Err']}
+        if (a is None or variant not in [v['name'] for v in a['variants']]) and variant not in std.get(adt, []):
             continue
         succ = [s_ for s_ in t.get('succ', []) if s_ != '']
         if len(succ) != 1:
@@ -750,6 +751,11 @@ class Inliner:
             did = False
             for cs in B.calls():
                 tgt = cs.resolved if self.is_helper(cs.resolved) else (cs.declared if self.is_helper(cs.declared) else None)
+                if tgt is None and cs.t.get('devirt') and cs.resolved:
+                    # a closure literal called on the spot (exposed by inlining the generic helper it was passed to)
+                    cb_ = self.P.get(cs.resolved)
+                    if cb_ is not None and cb_.kind == 'Closure' and cb_.crate in CRATES and not cb_.yields():
+                        tgt = cs.resolved
                 key = (cs.block, tgt)
                 if tgt is None or key in skip:
                     continue
@@ -780,7 +786,7 @@ class Inliner:
                     _drop_dead_machinery(D, B, cs.dest['l'])
                     self.log.append((path, tgt, 'async'))
                 else:
-                    if hb.kind == 'Closure' or len(cs.args) != hb.argc:
+                    if (hb.kind == 'Closure' and not cs.t.get('devirt')) or len(cs.args) != hb.argc:
                         skip.add(key)
                         self.kept.add(tgt)
                         continue
@@ -833,13 +839,33 @@ def relocate_moved(P, known):
         for p, b in present.items():
             if p not in known and p not in alias:
                 new.setdefault(parent(p), []).append(p)
+        def sig_of(b):
+            return [b.kind, bool(b.is_async), list(b.sig_in or []), b.sig_out]
         for par, ks in gone.items():
             us = new.get(par, [])
-            if len(ks) == 1 and len(us) == 1:
-                b = present[us[0]]
-                sg = sigs[ks[0]]
-                if [b.kind, bool(b.is_async), list(b.sig_in or []), b.sig_out] == [sg[0], bool(sg[1]), list(sg[2]), sg[3]]:
-                    alias[us[0]] = ks[0]
+            for k in ks:
+                sg = sigs[k]
+                want = [sg[0], bool(sg[1]), list(sg[2]), sg[3]]
+                same_new = [u for u in us if sig_of(present[u]) == want and u not in alias]
+                same_gone = [k2 for k2 in ks if [sigs[k2][0], bool(sigs[k2][1]), list(sigs[k2][2]), sigs[k2][3]] == want]
+                # exactly one function of that signature disappeared from the parent and exactly one appeared
+                if len(same_new) == 1 and len(same_gone) == 1:
+                    alias[same_new[0]] = k
+                elif len(same_new) > 1 and len(same_gone) == 1 and len(sg) > 5 and sg[5]:
+                    # several newcomers share the signature (the old function was renamed AND a helper with the same
+                    # parameters was split off): the renamed one is the one that still calls what the old one called
+                    old_c = set(sg[5])
+                    def callees_of(u):
+                        out = set()
+                        for p2, bs2 in P.bodies.items():
+                            if p2 == u or p2.startswith(u + '::{closure#'):
+                                for b2 in bs2:
+                                    if not b2.is_promoted:
+                                        out |= {cs.resolved or cs.declared for cs in b2.calls() if (cs.resolved or cs.declared)}
+                        return out
+                    scored = sorted(((len(old_c & callees_of(u)) / max(1, len(old_c | callees_of(u))), u) for u in same_new), reverse=True)
+                    if scored[0][0] >= 0.5 and scored[0][0] >= 1.5 * scored[1][0]:
+                        alias[scored[0][1]] = k
     if not alias:
         return alias
 
